@@ -27,12 +27,17 @@
 (*     F  [fs, ids]                           function identity (cache)    *)
 (*     C  [context, body, outcome]            callback guard               *)
 (*     W  [methods, property names]           MakeWrapper                  *)
-(* The harness decides the ROUTE (Set/Get, Call/Invoke/New argument,       *)
-(* exposed function result, js-tagged field, MakeFunc, MakeWrapper, ...)   *)
-(* and renders each case through every route of its class; Routes below    *)
-(* lists them and states which ones convert at the static type and which   *)
-(* box the value in interface{} first -- BoxTransparent checks in the      *)
-(* model that both predict the same value.                                 *)
+(* The harness renders each case through every ROUTE of its family; the    *)
+(* routes are listed below (RoutesE ... RoutesX, written to the header     *)
+(* file together with the catalog) and say whether the conversion happens  *)
+(* at the static type (result of an exposed function, js-tagged field,     *)
+(* parameter of a function-typed js field, MakeWrapper method) or after    *)
+(* boxing in interface{} (Set, Call/Invoke/New argument, SetIndex,         *)
+(* MakeFunc result) -- BoxTransparent checks in the model that both        *)
+(* predict the same value.  The state machine of the wrapper cache and of  *)
+(* the callback guard is module JsMappingState (a separate TLC run); the   *)
+(* families F and C here are its pure projections (ExternalizeFuncs,       *)
+(* CallbackOutcome).                                                       *)
 (*                                                                         *)
 (* On every row TLC also checks SpecOK on exactly the enumerated values:   *)
 (*   RoundTrip      Representable(v,T) => Internalize(Externalize(v,T),T)=v*)
